@@ -176,7 +176,7 @@ def apply(doc, case_seed, i, gen):
         if not doc.scenes:
             return None
         s = r.choice(list(doc.scenes))
-        d = list_edit(r, s.nodes, lambda: gen.node(1), removable=lambda o: True)
+        d = list_edit(r, s.nodes, lambda: gen.node(1), removable=lambda o: id(o) not in ref['nodes'])
         return d and 'scene_nodes:' + d
     if kind == 'node_children':
         if not nodes:
@@ -335,7 +335,7 @@ def apply(doc, case_seed, i, gen):
             l.color = gen.color(3)
             for a in ('constant_att', 'linear_att', 'quad_att', 'zfar', 'falloff_ang', 'falloff_exp'):
                 if hasattr(l, a) and r.random() < 0.4:
-                    setattr(l, a, r.choice([None, gen.pyfloat()]))
+                    setattr(l, a, r.choice([None, 0.0, gen.pyfloat()]))
         elif k == 'camera' and doc.cameras:
             c = r.choice(list(doc.cameras))
             c.znear = r.choice([0.5, 2.0])
